@@ -11,8 +11,10 @@ import Acra.Py.MethOps
 import Acra.Gen.Src.Cls.iNetX
 import Acra.Gen.Src.Cls.PTPTime
 import Acra.Gen.Src.Cls.RTCTime
+import Acra.Gen.Src.Cls.UDP
 import Acra.Model.iNetX
 import Acra.Model.Ch11
+import Acra.Model.Net
 namespace Acra.Lemmas.SrcTieCls
 open Acra Acra.Py
 
@@ -116,5 +118,23 @@ theorem ofModel_toModel (o : Obj) (h : Dom o) : ofModel (toModel o) = o := by
   simp only [toModel, ofModel, Dom] at *
   simp only [Int.toNat_of_nonneg, h]
 end RTCTime
+
+/-! ### UDP (SimpleEthernet.py) — model `Model.Net.UDP`, every attribute `__init__` assigns is carried -/
+namespace UDP
+abbrev Obj := Gen.Src.Cls.UDP.Obj
+def toModel (o : Obj) : Model.Net.UDP :=
+  { srcport := o.srcport.toNat, dstport := o.dstport.toNat, len := o.len.toNat, payload := o.payload }
+def ofModel (s : Model.Net.UDP) : Obj :=
+  { srcport := s.srcport, dstport := s.dstport, len := s.len, payload := s.payload }
+def Dom (o : Obj) : Prop := 0 ≤ o.srcport ∧ 0 ≤ o.dstport ∧ 0 ≤ o.len
+instance (o : Obj) : Decidable (Dom o) := by unfold Dom; infer_instance
+@[simp] theorem toModel_ofModel (s : Model.Net.UDP) : toModel (ofModel s) = s := by
+  cases s; simp [toModel, ofModel]
+theorem ofModel_toModel (o : Obj) (h : Dom o) : ofModel (toModel o) = o := by
+  obtain ⟨h1, h2, h3⟩ := h
+  cases o
+  simp only [toModel, ofModel] at *
+  simp only [Int.toNat_of_nonneg, h1, h2, h3]
+end UDP
 
 end Acra.Lemmas.SrcTieCls
